@@ -148,17 +148,24 @@ func (d *Driver) yield(instanceID, site string) {
 		d.mu.Unlock()
 		return
 	}
-	if instanceID == "" {
-		st = 0 // pre-lock sites: pure reordering, never a stall
-	}
 	y := &yieldReq{site: site, d: st, ch: make(chan struct{}), gid: g, inst: -1}
+	if instanceID == "" {
+		// pre-lock site: the instance is the one this goroutine was last seen working for
+		if i, ok := d.gidInst[g]; ok {
+			y.inst = i
+			d.insts[i].parkedYields++
+		} else {
+			y.d = 0 // unknown goroutine: pure reordering, never a stall (stalls are accounted per instance)
+		}
+	}
 	for _, in := range d.insts {
 		if in.cfg.ID == instanceID {
 			y.inst = in.idx
 			in.parkedYields++
+			d.gidInst[g] = in.idx
 		}
 	}
-	d.h.Stalls = append(d.h.Stalls, StallEvt{T: d.now(), Site: site, D: st, GID: y.gid, Inst: y.inst})
+	d.h.Stalls = append(d.h.Stalls, StallEvt{T: d.now(), Site: site, D: y.d, GID: y.gid, Inst: y.inst})
 	d.inbox = append(d.inbox, &request{kind: "yield", y: y})
 	d.mu.Unlock()
 	d.signal()
@@ -171,6 +178,7 @@ func newDriver(p *Plan, keepLog bool) *Driver {
 		h:        &Hist{keepAll: keepLog},
 		wake:     make(chan struct{}, 1),
 		gids:     map[uint64]int{},
+		gidInst:  map[uint64]int{},
 		parked:   map[*yieldReq]bool{},
 		inflight: map[*Op]bool{},
 		opTrig:   map[[2]int][]*Action{},
